@@ -136,6 +136,9 @@ func propC31(c *Check) {
 	}
 	// (2) constants
 	total := 1 + 4*stm + max*2/3 + 1 + 65
+	// a full challenge additionally carries a 4-byte size, the snapshot encoding and two 32-byte points
+	snapEnc := int64(4+32+8+2+64+2) + stm*32 + 8 + 8 + 64 + 8
+	c.Require(max > 0 && total+4+snapEnc+64 <= max, "constfact", "sizes|full challenge fits", "an admitted batch plus the maximal snapshot encoding ("+itoa(int(snapEnc))+" bytes for "+itoa(int(stm))+" transactions), size prefix and two points still fits TransportMessageMaxSize", "total="+itoa(int(total+4+snapEnc+64))+" max="+itoa(int(max)))
 	c.Require(max > 0 && total <= max && stm <= 255 && tms+1+4+1+65 <= max, "constfact", "sizes|bundle fits", "1 + 4*SnapshotTransactionsMaximum + Max*2/3 + type byte + relay header <= TransportMessageMaxSize, count fits one byte, and one maximal transaction fits", "total="+itoa(int(total))+" max="+itoa(int(max))+" count="+itoa(int(stm)))
 	if f := c.F("common.unmarshalVersionedTransaction"); f != nil {
 		decs := callInstrs(findCalls(f, "(*common.Decoder).DecodeTransaction"))
